@@ -216,7 +216,7 @@ def native_replay(recipe, timeout=120):
 
 
 # ---------------------------------------------------------------- findings
-def run_standin(pid, tier, timeout=1500):
+def run_standin(pid, tier, timeout=900):
     """Bounded stand-in for a property, natively against the real code."""
     env = dict(os.environ)
     repo = os.environ.get('VERIF_REPO', '/repo')
@@ -227,6 +227,12 @@ def run_standin(pid, tier, timeout=1500):
                            capture_output=True, text=True, timeout=timeout, env=env, cwd=repo)
         line = p.stdout.strip().split('\n')[-1] if p.stdout.strip() else '[]'
         out = json.loads(line)
+    except subprocess.TimeoutExpired:
+        # the stand-ins finish in seconds on the unchanged tree: not terminating within %d s means an
+        # operation of the real code no longer terminates (e.g. an iteration that never advances)
+        out = [{'name': pid + '.standin.terminates', 'kind': 'bounded', 'verdict': 'refuted', 'backend': 'native-enumeration',
+                'detail': 'the bounded stand-in did not finish within %d s (it takes seconds on the unchanged tree): '
+                          'some operation of the real code does not terminate' % timeout}]
     except Exception as e:
         out = [{'name': pid + '.standin', 'kind': 'bounded', 'verdict': 'error', 'detail': repr(e)}]
     for r in out:
